@@ -60,7 +60,8 @@ func verifC06Run(conn *verifStreamConn, cl CipherList, cache *ReplayCache, wantS
 		conn.endErr = verifTimeoutErr{}
 	}
 	if verifC06Reset {
-		conn.endErr = errVerifFault // the client resets the connection instead of closing it
+		// the client resets the connection instead of closing it
+		conn.endErr = &net.OpError{Op: "read", Net: "tcp", Source: conn.LocalAddr(), Addr: conn.remote, Err: errVerifReset}
 	}
 	dialer := &verifDialer{conn: &verifStreamConn{name: "target", remote: &net.TCPAddr{IP: net.IPv4(93, 184, 216, 34), Port: 80}}}
 	h := NewStreamHandler(NewShadowsocksStreamAuthenticator(cl, cache, nil, nil), tcpReadTimeout)
@@ -99,9 +100,17 @@ func verifC06Run(conn *verifStreamConn, cl CipherList, cache *ReplayCache, wantS
 		drain = "other"
 	}
 	verifAssert("C15.probe-once", len(m.probes) == 1 && m.probes[0] == wantStatus+"/"+drain)
+	for _, pr := range m.probes {
+		verifAssert("C20.probe-report-free-of-client-address", !verifLabelLeaksAddr(pr, conn.remote))
+	}
+	for _, st := range m.closed {
+		verifAssert("C20.close-status-free-of-client-address", !verifLabelLeaksAddr(st, conn.remote))
+	}
 	verifAssert("C15.probe-bytes", len(m.probeBytes) == 1 && m.probeBytes[0] == int64(total))
 	verifAssert("C15.closed-once", len(m.closed) == 1 && m.closed[0] == wantStatus)
 	verifAssert("C15.no-auth-report", len(m.authenticated) == 0)
+	// the authenticated report is what starts a tunnel in the metrics (see VH_C17_pairing)
+	verifAssert("C17.unauthenticated-connection-starts-no-tunnel", len(m.authenticated) == 0)
 	verifAssert("C15.order", len(m.order) == 2 && m.order[0] == "probe" && m.order[1] == "closed")
 	verifAssert("C15.bytes", m.closedData[0] == int64(total) && m.closedData[1] == 0 && m.closedData[2] == 0 && m.closedData[3] == 0)
 	return m, dialer
@@ -116,6 +125,25 @@ var verifDeadlineValue = false
 
 var verifC06Ctx context.Context
 var verifC06Reset bool
+
+// a listener whose key list is empty (all keys of a port removed by a reload) treats every
+// connection like any other invalid probe
+func VH_C06_empty_key_list() {
+	verifDeadlineValue = true
+	defer func() { verifDeadlineValue = false }()
+	cl := NewCipherList()
+	l1 := verifProbeLens[verifChoice("len1", len(verifProbeLens))]
+	l2 := []int{0, 7}[verifChoice("len2", 2)]
+	conn := &verifStreamConn{name: "client", remote: &net.TCPAddr{IP: net.IPv4(203, 0, 113, 5), Port: 50000}}
+	if l1 > 0 {
+		conn.reads = append(conn.reads, verifSRead{data: verifBytes("p1", l1)})
+	}
+	if l2 > 0 {
+		conn.reads = append(conn.reads, verifSRead{data: verifBytes("p2", l2)})
+	}
+	verifC06Run(conn, cl, nil, "ERR_CIPHER", verifFlag("timeout"), l1+l2)
+	verifReach("C06.empty-list.long", l1+l2 >= 50)
+}
 
 // C15: a probe that ends with a connection reset (neither FIN nor timeout) is still reported
 // once, with its byte count, and closed once
@@ -238,7 +266,9 @@ func VH_C08_reflected() {
 	conn := &verifStreamConn{name: "client", remote: &net.TCPAddr{IP: net.IPv4(203, 0, 113, 5), Port: 50000}}
 	conn.reads = []verifSRead{{data: buf.b}}
 	if marked {
-		verifC06Run(conn, cl, cache, "ERR_REPLAY_SERVER", verifFlag("timeout"), len(buf.b))
+		m, d := verifC06Run(conn, cl, cache, "ERR_REPLAY_SERVER", verifFlag("timeout"), len(buf.b))
+		verifAssert("C08.reflected.refused-as-server-replay", len(m.closed) == 1 && m.closed[0] == "ERR_REPLAY_SERVER" && len(m.authenticated) == 0)
+		verifAssert("C08.reflected.handled-like-a-probe", len(d.dials) == 0 && conn.writeCalls == 0 && len(m.probes) == 1 && len(conn.deadlines) == 1)
 		if cache != nil {
 			verifAssert("C08.cache-untouched", len(cache.active) == 0)
 		}
